@@ -1,0 +1,19 @@
+//go:build verif
+
+package emulator
+
+import (
+	"errors"
+	"mltwist/pkg/expr"
+	"mltwist/pkg/model"
+)
+
+// VerifAccessError tells whether err is the error Step returns for a memory
+// access that does not fit into the address space, and which access it was.
+func VerifAccessError(err error) (model.Addr, expr.Width, bool) {
+	var aErr accessError
+	if !errors.As(err, &aErr) {
+		return 0, 0, false
+	}
+	return aErr.addr, aErr.w, true
+}
